@@ -305,8 +305,13 @@ func (g *Generator) generateMockMapFieldAssignment(
 	} else {
 		// Value is a scalar type
 		valueType := g.getGoTypeScalar(valueField)
-		gf.P(varName, ".", fieldName, " = make(map[", keyType, "]", valueType, ")")
 		defaultValue := g.getDefaultValue(valueField)
+		if valueField.Enum != nil {
+			// An enum value has its own Go type; its zero value is a valid member
+			valueType = gf.QualifiedGoIdent(valueField.Enum.GoIdent)
+			defaultValue = "0"
+		}
+		gf.P(varName, ".", fieldName, " = make(map[", keyType, "]", valueType, ")")
 		gf.P(varName, ".", fieldName, "[", sampleKey, "] = ", defaultValue)
 	}
 }
